@@ -46,6 +46,7 @@ type Scenario struct {
 
 // Result of one scenario.
 type Result struct {
+	Aborted     bool          `json:"aborted,omitempty"` // the scenario's goroutine was ended by the testing package (race detected in the bubble)
 	ID          string        `json:"id"`
 	Alone       []*CallRecord `json:"alone,omitempty"` // each call run alone on a fresh pair, trivial schedule, no faults
 	Conc        []*CallRecord `json:"conc"`
@@ -301,18 +302,23 @@ func TestSim(t *testing.T) {
 	defer out.Close()
 	for i, sc := range j.Scenarios {
 		fmt.Fprintf(os.Stderr, "\nSCENARIO-BEGIN %d %s\n", i, sc.ID)
-		wd := time.AfterFunc(5*time.Minute, func() {
-			buf := make([]byte, 1<<20)
-			n := runtime.Stack(buf, true)
-			fmt.Fprintf(os.Stderr, "\nWATCHDOG scenario %d %s stalled\n%s\n", i, sc.ID, buf[:n])
-			syscall.Exit(3)
+		// Each scenario is a subtest: when the race detector fails the bubble's test, testing ends the calling
+		// goroutine (FailNow); as a subtest that ends only this scenario, and its result line is still written.
+		t.Run(fmt.Sprint(i), func(t *testing.T) {
+			res := Result{ID: sc.ID, Aborted: true}
+			defer func() {
+				fmt.Fprintf(os.Stderr, "\nSCENARIO-END %d %s\n", i, sc.ID)
+				line, _ := json.Marshal(res)
+				_, _ = out.Write(append(line, '\n'))
+			}()
+			wd := time.AfterFunc(5*time.Minute, func() {
+				buf := make([]byte, 1<<20)
+				n := runtime.Stack(buf, true)
+				fmt.Fprintf(os.Stderr, "\nWATCHDOG scenario %d %s stalled\n%s\n", i, sc.ID, buf[:n])
+				syscall.Exit(3)
+			})
+			defer wd.Stop()
+			res = runScenario(t, sc)
 		})
-		res := runScenario(t, sc)
-		wd.Stop()
-		fmt.Fprintf(os.Stderr, "\nSCENARIO-END %d %s\n", i, sc.ID)
-		line, _ := json.Marshal(res)
-		if _, err := out.Write(append(line, '\n')); err != nil {
-			t.Fatal(err)
-		}
 	}
 }
